@@ -2,6 +2,7 @@ package main
 
 import (
 	"bytes"
+	"crypto/sha256"
 	"fmt"
 
 	"github.com/fxamacker/cbor/v2"
@@ -28,6 +29,54 @@ func streamRealSeq(c *ctx) {
 	realObjectHistories(c)
 	realPeerMultiSign(c)
 	realPeerSingle(c)
+	realRelatedKeys(c)
+}
+
+// ---- E: keys related to the right one (C02, C03): the key material followed by zero octets (HMAC pads a short key with
+// zeros), cut by one octet, or replaced by its hash: another key, whether it is refused when loaded or when used
+func realRelatedKeys(c *ctx) {
+	for _, a := range allAlgs {
+		if a.kty != 4 {
+			continue
+		}
+		var kinds []string
+		switch alg := a.alg; {
+		case (alg >= 4 && alg <= 7) || alg == 14 || alg == 15 || alg == 25 || alg == 26:
+			kinds = []string{"KMac0", "KMac"}
+		default:
+			kinds = []string{"KEnc0", "KEnc"}
+		}
+		for _, kind := range kinds {
+			k, err := genKeyFor(a.alg)
+			if err != nil {
+				continue
+			}
+			payload, ext := c.r.bytes(20), c.r.bytes(3)
+			data, perr := produceReal(kind, k, payload, ext)
+			if perr != nil {
+				continue
+			}
+			kb, _ := k.GetBytes(iana.SymmetricKeyParameterK)
+			sum := sha256.Sum256(kb)
+			rel := map[string][]byte{"key || 00": append(append([]byte{}, kb...), 0), "key || 00 x 8": append(append([]byte{}, kb...), make([]byte, 8)...),
+				"key without its last octet": kb[:len(kb)-1], "SHA-256 of the key": sum[:], "key || key": append(append([]byte{}, kb...), kb...)}
+			for name, kb2 := range rel {
+				k2 := cloneKey(k)
+				k2[iana.SymmetricKeyParameterK] = kb2
+				var seen [][]byte
+				var got []byte
+				var cerr error
+				p, pm := catch(func() { got, _, cerr = consumeReal(kind, k2, data, ext, &seen) })
+				c.eval()
+				c.nontriv(fmt.Sprintf("related-key|%d|%s", a.alg, name))
+				if p || cerr == nil {
+					line := short(fmt.Sprintf("realseq-related-key|%s|alg=%d|key=%x|other key (%s)=%x", kind, a.alg, kb, name, kb2))
+					c.fail(failure{Op: "real-related-key", What: "a message is accepted under another key (" + name + ")", Input: line,
+						Observed: short(fmt.Sprintf("panic=%v %s accepted, payload=%x", p, pm, got)), Expected: "an error", Case: line})
+				}
+			}
+		}
+	}
 }
 
 // an empty protected bucket as a peer may validly write it: the zero-length string, an explicit empty map, an empty
@@ -209,7 +258,13 @@ func realNonceMaterial(c *ctx) {
 					switch vr[0] {
 					case 0:
 						baseLen := pick(c.r, []int{1, ns / 2, ns, ns, ns + 3})
-						k[iana.KeyParameterBaseIV] = c.r.bytes(baseLen)
+						bv := c.r.bytes(baseLen)
+						if c.r.intn(3) == 0 { // a Base IV that starts with zero octets
+							for j := 0; j < 1+c.r.intn(3) && j < len(bv)-1; j++ {
+								bv[j] = 0
+							}
+						}
+						k[iana.KeyParameterBaseIV] = bv
 						piv = c.r.bytes(vr[1])
 						if c.r.intn(4) == 0 {
 							piv[0] = 0 // leading zero bytes are part of the header value
@@ -319,6 +374,32 @@ func realNonceMaterial(c *ctx) {
 								c.fail(failure{Op: "real-nonce-material", What: "a message decrypts under a key whose Base IV was changed", Input: line + fmt.Sprintf("|byte %d of the Base IV changed", pos),
 									Observed: "accepted", Expected: "an error (another nonce is derived)", Case: line, Theorem: "C03_enc0_binds"})
 								break
+							}
+						}
+						// the Base IV in another alignment: without its leading zero octets, shifted by one octet, with a zero octet
+						// in front. Another Base IV unless the first nonce-size octets (zero-extended on the right) are the same.
+						fitN := func(b []byte) []byte {
+							out := make([]byte, ns)
+							copy(out, b)
+							return out
+						}
+						for an, alt := range map[string][]byte{"leading zero octets removed": stripZeros(base), "00 in front": append([]byte{0}, base...), "first octet removed": base[1:]} {
+							if len(alt) == 0 || bytes.Equal(fitN(alt), fitN(base)) {
+								continue
+							}
+							k2 := key.Key{}
+							for a, b := range k {
+								k2[a] = b
+							}
+							k2[iana.KeyParameterBaseIV] = alt
+							var s2 [][]byte
+							var e2 error
+							pp, _ := catch(func() { _, _, e2 = consumeReal(kind, k2, data, ext, &s2) })
+							c.eval()
+							c.nontriv(fmt.Sprintf("base-iv-alignment|%d|%s", alg, an))
+							if pp || e2 == nil {
+								c.fail(failure{Op: "real-nonce-material", What: "a message decrypts under a key whose Base IV is another one (" + an + ")", Input: line + fmt.Sprintf("|Base IV %x -> %x", base, alt),
+									Observed: "accepted", Expected: "an error (another nonce is derived)", Case: line, Theorem: "C03_enc0_binds"})
 							}
 						}
 					}
